@@ -1,25 +1,64 @@
 """C03 — merging duplicates never changes a function: matches and parameter maps exact."""
 import os, re, shutil
-import common, extract, libgen, oracle_lib, mpirun, synthlib
+import cas_script, common, extract, libgen, oracle_lib, mpirun, synthlib
 
-LEAN_MODULE = "ESRVerif.Props.C03"
+LEAN_MODULE = ["ESRVerif.Props.C03", "ESRVerif.Props.C03b"]
 LEVEL = "other"
 LEVEL_TEXT = ("Partial proof. Proved in Lean for libraries of any size: first-occurrence indexing gives a duplicate-free unique list and a total match "
               "that points at the function's own string; get_match_indexes finds the first occurrence of every rewritten tree's original; the chain "
               "of a function extended by its unique's new substitutions stays sound through any number of simplification rounds provided each CAS "
               "rewrite of a unique is sound (composition order as in convert_params); the shuffle with remapped matches and the un-merge keep every "
-              "match pointing at the same string. NOT proved (hypothesis StepSound): that sympy's subs/expand/factor/equals inside sympy_simplify and "
+              "match pointing at the same string. The do_sympy DRIVER itself is modelled (both fixed-point loops, the per-parameter-count calls of "
+              "sympy_simplify with in-place writes, add_inv_subs, step (3), the round files) together with duplicate_checker.main around it (extra trees "
+              "inherit their original's string, the round files are re-read and appended per function): doSympy_sound shows that if every CAS call is "
+              "sound (OracleSound) then after ANY number of rounds every function is sound w.r.t. its final unique and the chain assembled from the "
+              "round files; round_files_recombine, files_same_length, extras_inherit_original cover the file bookkeeping. Termination of the loops is "
+              "not claimed. NOT proved (hypotheses StepSound/OracleSound): that sympy's subs/expand/factor/equals inside sympy_simplify and "
               "check_results produce sound rewrites. That part is checked on every run by an independent numeric oracle on every row of real libraries "
               "(shipped bases and PRNG bases through the verification hook) and on hand-built libraries with deliberately wrong merges.")
-TECHNIQUE = "Lean 4 proof of the merge bookkeeping under a named hypothesis on the CAS steps + numeric conformance oracle on every library row"
-RULE = ("one case = one row of a generated library checked by the oracle (f(x; p(theta)) = u(x; theta) at generic points, or nan with fewer parameters); "
-        "non-trivial = the row has a non-empty chain or is marked unrecoverable; distinct by (basis, complexity, row)")
+TECHNIQUE = ("Lean 4 proof of the merge bookkeeping and of the do_sympy/duplicate_checker driver under a named hypothesis on the CAS steps; the driver model is "
+             "tied to the code by running the REAL duplicate_checker.main/do_sympy under a PRNG-scripted CAS whose every answer is sound by construction "
+             "(hidden exact denotations over Z_p) and comparing every file with the model; numeric conformance oracle on every library row")
+RULE = ("one case = one row of a generated library checked by the oracle (f(x; p(theta)) = u(x; theta) at generic points, or nan with fewer parameters), or one "
+        "function of a scripted-CAS run checked exactly against the hidden denotations; non-trivial = the row has a non-empty chain or is marked "
+        "unrecoverable / the scripted run merged functions and recorded chains; distinct by (basis, complexity, row) or (script)")
 EXPLANATION = LEVEL_TEXT
-TRUSTED = ["hand model ESRVerif/Model/Library.lean of get_unique_indexes/get_match_indexes/shuffle/un-merge (tied by correspondence on random lists)",
-           "harness/oracle_lib.py (sympy parsing + numpy evaluation of library rows at generic points, finite values only)"]
-ASSUMPTIONS = ["StepSound: each sympy rewrite recorded by sympy_simplify is a sound (function, unique, map) triple - sampled, not proved",
-               "generic points: x in (0.4,2.5), parameters in +-(0.4,2.5); rows never finite at any sampled point are counted unverifiable"]
-MODELLED = ["utils.py:get_unique_indexes", "utils.py:get_match_indexes", "duplicate_checker.py:main", "simplifier.py:do_sympy", "simplifier.py:check_results"]
+TRUSTED = ["hand model ESRVerif/Model/Library.lean of get_unique_indexes/get_match_indexes/shuffle/un-merge (tied by correspondence on random lists) and of "
+           "the do_sympy driver + duplicate_checker.main bookkeeping (tied by correspondence on PRNG scripts: returned strings, round count, every round "
+           "file, all_equations/unique_equations/matches/inv_subs compared with the model)",
+           "harness/oracle_lib.py (sympy parsing + numpy evaluation of library rows at generic points, finite values only)",
+           "harness/cas_script.py (script generator whose CAS answers are sound by construction; exact evaluation of the hidden denotations mod 10007)"]
+ASSUMPTIONS = ["StepSound/OracleSound: each sympy rewrite recorded by sympy_simplify is a sound (function, unique, map) triple and chains are only appended to - sampled, not proved",
+               "generic points: x in (0.4,2.5), parameters in +-(0.4,2.5); rows never finite at any sampled point are counted unverifiable",
+               "scripted-CAS runs are single rank, complexity label 1-2 (check_results not reached), generator/initial_sympify/sympy_simplify/expand_or_factor "
+               "replaced by the script; all but the first 24 (quick) / 300 (thorough) scripts run main's two shell commands per file (sed, mv) in-process",
+               "termination of the two fixed-point loops is not claimed (the model has fuel and reports whether the exit condition was reached; every run reached it)"]
+MODELLED = ["utils.py:get_unique_indexes", "utils.py:get_match_indexes", "duplicate_checker.py:main", "simplifier.py:do_sympy", "simplifier.py:check_results",
+            "simplifier.py:count_params", "simplifier.py:get_max_param",
+            # the rewrites themselves are not modelled (StepSound is a hypothesis): a change there widens the row-by-row oracle run
+            "simplifier.py:sympy_simplify", "simplifier.py:simplify_inv_subs", "simplifier.py:get_all_dup"]
+
+
+def _index_ok(L, us, match):
+    return len(set(us)) == len(us) and all(v in match and isinstance(match[v], int) and 0 <= match[v] < len(us) and us[match[v]] == v for v in L)
+
+
+def _replay_index(L):
+    from esr.generation import utils
+    import numpy as np
+    uniq, match = utils.get_unique_indexes(L)
+    us = list(uniq.keys())
+    if not _index_ok(L, us, match):
+        print("get_unique_indexes(%r): uniques %r, match %r" % (L, us, match))
+        return False
+    for seed in range(5):
+        np.random.seed(seed)
+        i = np.arange(len(uniq)); np.random.shuffle(i)
+        inv = {i[j]: j for j in range(len(i))}
+        su = [us[ii] for ii in i]
+        if [su[inv[match[f]]] for f in L] != L:
+            return False
+    return True
 
 
 def _corr_index(ctx, n):
@@ -31,6 +70,10 @@ def _corr_index(ctx, n):
         L = [ctx.rng.choice(alpha[:ctx.rng.randint(1, len(alpha))]) for _ in range(ctx.rng.randint(0, 14))]
         uniq, match = utils.get_unique_indexes(L)
         us = list(uniq.keys())
+        # oracle (property): every function is assigned exactly one entry of the unique list, namely its own string; uniques distinct
+        if not _index_ok(L, us, match):
+            ctx.fail("get_unique_indexes:match-not-own-string", "get_unique_indexes(%r): uniques %r, match %r" % (L, us, match), dict(kind="index", L=L))
+            continue
         ops.append("lib-uniq %s" % ("_" if not L else ",".join(L)))
         real.append("%s %s" % ("_" if not us else ",".join(us), "-" if not L else ",".join(str(match[v]) for v in L)))
         if L:
@@ -56,6 +99,129 @@ def _corr_index(ctx, n):
     return len(ops), len(bad)
 
 
+def _run_script(ctx, script, real_shell=True):
+    """the real duplicate_checker.main on one script -> (run state, parsed files, property failures)"""
+    st = cas_script.run_real(script, os.path.join(ctx.tmp, "c03_driver"), real_shell=real_shell)
+    out = cas_script.read_outputs(script, st)
+    return st, out, cas_script.check_property(script, st, out)
+
+
+def _shrink(ctx, script, kind, budget=120):
+    """greedy minimisation of a failing script (fewer rounds, fewer table entries, fewer functions) keeping the kind of
+    failure; every candidate is re-run on the real code"""
+    import copy
+
+    def fails(sc):
+        try:
+            return any(k == kind for k, _ in _run_script(ctx, sc, real_shell=False)[2])
+        except Exception:
+            return False
+
+    cur = copy.deepcopy(script)
+    progress = True
+    while progress and budget > 0:
+        progress = False
+        cands = []
+        for r in range(len(cur["tables"]) - 1, -1, -1):
+            c = copy.deepcopy(cur); del c["tables"][r]; cands.append(c)
+        for r, t in enumerate(cur["tables"]):
+            for nm in t:
+                c = copy.deepcopy(cur); del c["tables"][r][nm]; cands.append(c)
+        norig = len(cur["gen"]) - cur["nextra"]
+        for i in range(len(cur["gen"]) - 1, -1, -1):
+            c = copy.deepcopy(cur)
+            if i >= norig:
+                del c["gen"][i]; del c["exorig"][i - norig]; c["nextra"] -= 1
+            else:
+                del c["gen"][i]
+                if any(o not in c["gen"][:norig - 1] for o in c["exorig"]):
+                    continue
+            cands.append(c)
+        for nm in list(cur["symp"]):
+            c = copy.deepcopy(cur); del c["symp"][nm]; cands.append(c)
+        for c in cands:
+            if budget <= 0:
+                break
+            budget -= 1
+            if fails(c):
+                cur, progress = c, True
+                break
+    used = set(cur["gen"]) | set(cur["exorig"]) | set(cur["symp"].values())
+    for t in cur["tables"]:
+        used |= set(t) | set(v[0] for v in t.values())
+    cur["names"] = {k: v for k, v in cur["names"].items() if k in used}
+    return cur
+
+
+def _corr_driver(ctx, n):
+    """do_sympy + the surrounding part of duplicate_checker.main, REAL code under a PRNG-scripted CAS, against
+    Model/Library.dupMain on the same script; and C03's statement on the files each run wrote."""
+    import gc, random
+    import esr.generation.duplicate_checker                        # noqa: everything imported before the heap is frozen
+    gc.collect(); gc.freeze()                                       # do_sympy calls gc.collect() ~10 times per round
+    try:
+        return _corr_driver_frozen(ctx, n)
+    finally:
+        gc.unfreeze()
+
+
+def _corr_driver_frozen(ctx, n):
+    import gc, random
+    nshell = 24 if ctx.quick else 300
+    ops, reals, scripts = [], [], []
+    stats = dict(scripts=n, rounds={}, functions=0, rows_with_chain=0, rows_nan=0, extras=0, merges=0, cancelled=0, mismatches=0,
+                 property_failures=0, round_files=0, rows_recorded_in_several_rounds=0)
+    for k in range(n):
+        script = cas_script.make_script(random.Random(ctx.rng.getrandbits(48)))
+        st, out, bad = _run_script(ctx, script, real_shell=k < nshell)
+        if k % 64 == 63:
+            gc.freeze()               # what the loop accumulated so far must not slow the real code's gc.collect() calls down
+        for kind, detail in bad[:1]:
+            stats["property_failures"] += 1
+            if stats["property_failures"] > 40:
+                continue              # counted; decide() reports the first few, each with its own replay
+            rp = script
+            if stats["property_failures"] <= 3 and "no-parameters" not in kind:
+                rp = _shrink(ctx, script, kind)
+                detail = ([d for k_, d in _run_script(ctx, rp, real_shell=False)[2] if k_ == kind] or [detail])[0]
+            ctx.fail("scripted-cas:%s" % kind, "real duplicate_checker.main/do_sympy under a sound scripted CAS (hypothesis OracleSound holds by construction) "
+                     "left an unsound library: %s; functions %r, round tables %r" % (detail, rp["gen"], rp["tables"]), dict(kind="script", script=rp))
+        if st["odd"]:
+            ctx.disagree("corr:do_sympy", "sympy object passed with the wrong string: %r" % (st["odd"][:3],))
+        if not out["format_ok"] or out.get("stray_round_file"):
+            ctx.disagree("corr:do_sympy", "round/inv_subs file not in csv ';' format or a round file beyond the returned count")
+        nuniq = len(out["uniq"]) if out.get("uniq") is not None else 0
+        ops.append(cas_script.model_line(script, nuniq))
+        reals.append(cas_script.real_line(script, st, out))
+        scripts.append((script["seed"], len(script["gen"])))
+        nr = st["ret"][1] if st["ret"] else -1
+        stats["rounds"][nr] = stats["rounds"].get(nr, 0) + 1
+        stats["round_files"] += 2 * max(nr, 0)
+        stats["functions"] += len(script["gen"]); stats["extras"] += script["nextra"]
+        if out.get("inv") is not None and not st["raised"]:
+            stats["rows_with_chain"] += sum(1 for r in out["inv"] if r)
+            stats["rows_nan"] += sum(1 for r in out["inv"] if "nan" in r)
+            stats["merges"] += len(set(out["alleq"])) - len(out["uniq"])
+            raw = sum(len(r) for _, rr in out["rounds"] if rr for r in rr)
+            stats["cancelled"] += raw - sum(len(r) for r in out["inv"])
+            seen = {}
+            for idx, _ in out["rounds"]:
+                for j in idx or []:
+                    seen[j] = seen.get(j, 0) + 1
+            stats["rows_recorded_in_several_rounds"] += sum(1 for v in seen.values() if v > 1)
+            nontriv = any(out["inv"]) and len(set(out["alleq"])) > len(out["uniq"])
+            ctx.case(("script", k, ctx.seed), nontrivial=nontriv, n=len(script["gen"]))
+        if k < 2:
+            ctx.sample(dict(script_functions=script["gen"], rounds=nr, unique=out.get("uniq"), matches=out.get("match"), inv_subs=out.get("inv")))
+    outm = common.model(ops)
+    for (sseed, nfun), a, b in zip(scripts, reals, outm):
+        if a != b:
+            stats["mismatches"] += 1
+            ctx.disagree("corr:do_sympy", "%s [script seed %d, %d functions]" % (cas_script.first_difference(a, b), sseed, nfun))
+    stats["rounds"] = {str(k): v for k, v in sorted(stats["rounds"].items())}
+    return stats
+
+
 def _lib_rows(ctx, runname, nmax, P=1, basis=None, tag=""):
     r = libgen.generate(ctx, runname, list(range(1, nmax + 1)), P=P, basis=basis, copy="c03_%s%s_P%d" % (runname, tag, P), timeout=1500)
     rp = dict(kind="library", runname=runname, nmax=nmax, P=P, basis=basis)
@@ -79,9 +245,17 @@ def run(ctx):
     deep = (not ctx.quick) or bool(drift)
     ctx.extra["source_drift"] = drift
     n, b = _corr_index(ctx, 3000 if deep else 600)
-    ctx.extra["corr_obligations"] = 1
-    ctx.extra["corr_discharged"] = int(b == 0)
-    ctx.extra["correspondence"] = dict(index_ops=n, mismatches=b)
+    drv = _corr_driver(ctx, 5000 if deep else 320)
+    ctx.extra["corr_obligations"] = 2
+    ctx.extra["corr_discharged"] = int(b == 0) + int(drv["mismatches"] == 0)
+    ctx.extra["correspondence"] = dict(index_ops=n, mismatches=b, do_sympy_driver=drv)
+    # the driver already fails on concrete inputs: the verdict is fixed, and generating real libraries with a broken driver
+    # can take hours (chains growing without bound make check_results crawl) - stop here
+    kf = common.known_findings(ctx.pid)
+    hard = [f["key"] for f in ctx.failures if not any(re.fullmatch(e["match"], f["key"]) for e in kf)]
+    if hard:
+        ctx.extra["libraries_skipped"] = "driver/index oracle already failed on the real code: %s" % sorted(set(hard))[:5]
+        return
     plan = ([("core_maths", 5), ("base_e_maths", 4), ("keep_duplicates", 4)] if not deep else
             [("core_maths", 6), ("ext_maths", 5), ("keep_duplicates", 5), ("osc_maths", 5), ("base10_maths", 5), ("base_e_maths", 5)])
     for rn, nmax in plan:
@@ -99,6 +273,13 @@ def run(ctx):
 
 def replay(ctx, data):
     rp = data["replay"]
+    if rp.get("kind") == "index":
+        return _replay_index(rp["L"])
+    if rp.get("kind") == "script":
+        st, out, bad = _run_script(ctx, rp["script"])
+        for kind, detail in bad:
+            print("%s: %s" % (kind, detail))
+        return not bad
     if rp.get("kind") == "check_results":
         import props.c13 as c13
         return c13.replay(ctx, data)
